@@ -124,13 +124,7 @@ End ShuffleP.
 (* ================================================================== *)
 (* what an extension list puts on the wire, by the codecs of Model/Ext.v *)
 
-Definition wire_pair (e : ext) : option (N * bytes) :=
-  if ext_absent e then None else Some (ext_id e, ext_body e).
-Definition wire_of (es : list ext) : list (N * bytes) :=
-  flat_map (fun e => match wire_pair e with Some w => [w] | None => [] end) es.
-(* the padding extension after Update(..) of MarshalClientHelloNoECH: any state *)
-Definition set_pad (l : N) (w : bool) (e : ext) : ext :=
-  match e with EPadding _ _ pol => EPadding l w pol | _ => e end.
+(* wire_pair / wire_of / set_pad / ast_of are defined in Model/ParrotSpec.v *)
 
 (* wire_pair is what Read emits (C08 layout theorem) *)
 Lemma wire_pair_read e : wf_ext e = true ->
@@ -371,7 +365,7 @@ Proof.
       destruct (preset_exts sd c seen keys echs es) as [r'| |] eqn:Er; cbn [bind] in H; try discriminate.
       inversion H; subst es'; clear H. split_wf Hwf Hw1 Hw2.
       cbn [expect_exts map]. rewrite wire_of_cons. apply seq_step; [|eapply IH; eassumption].
-      cbn [presence_of]. destruct (empty host) eqn:Eh; cbn [andb set_pad ext_absent ext_matches ext_id].
+      cbn [presence_of]. destruct (empty host) eqn:Eh; cbn [andb set_pad ext_absent ext_matches ext_id]; rewrite ?Eh.
       * destruct (empty (c_sni c)) eqn:Ec.
         -- apply empty_true_iff in Ec. rewrite Ec. reflexivity.
         -- apply empty_false_iff in Ec. split; [apply N.eqb_neq; exact Ec|]. rewrite N.eqb_refl, bytes_eqb_refl. reflexivity.
@@ -424,4 +418,109 @@ Proof.
       inversion H; subst es'; clear H. split_wf Hwf Hw1 Hw2.
       cbn [expect_exts map set_pad]. rewrite wire_of_cons. apply seq_step; [|eapply IH; eassumption].
       cbn [presence_of]. destruct (ext_absent (EFakePreSharedKey (c_omit_psk c) ids binders)); [left; reflexivity|right; split; reflexivity].
+Qed.
+
+(* ---- header fields ---- *)
+
+Lemma find_versions_max vs : forall mn mx,
+  snd (fold_left (fun '(mn, mx) v =>
+         if Grease.is_grease v then (mn, mx) else
+         ((if (v <? mn) || (mn =? 0) then v else mn), (if (mx <? v) || (mx =? 0) then v else mx))) vs (mn, mx))
+  = N.max mx (fold_right N.max 0 (filter (fun v => negb (Grease.is_grease v)) vs)).
+Proof.
+  induction vs as [|v vs IH]; intros mn mx; cbn [fold_left filter fold_right snd]; [lia|].
+  destruct (Grease.is_grease v); cbn [negb]; [apply IH|].
+  rewrite IH. cbn [fold_right]. destruct ((mx <? v) || (mx =? 0)) eqn:E; lia.
+Qed.
+
+Definition is_versions (s : sext) : bool := match s with SExt (ESupportedVersions _) => true | _ => false end.
+Definition nver (es : list sext) : nat := length (filter is_versions es).
+
+Lemma scan_versions_spec : forall es c0 m0 x0 c1 m1 x1,
+  scan_versions es (c0, m0, x0) = Ok (c1, m1, x1) ->
+  c1 = (c0 + nver es)%nat /\
+  (nver es = 0%nat -> spec_versions es = None /\ m1 = m0 /\ x1 = x0) /\
+  (nver es = 1%nat -> exists vs, spec_versions es = Some vs /\ x1 = snd (find_versions vs)).
+Proof.
+  induction es as [|s es IH]; intros c0 m0 x0 c1 m1 x1 H.
+  - cbn in H. inversion H; subst. unfold nver. cbn. repeat split; try lia; intros; try reflexivity; lia.
+  - destruct (is_versions s) eqn:Ev.
+    + destruct s as [e|]; [|discriminate]. destruct e; try discriminate. clear Ev.
+      cbn [scan_versions] in H. destruct (find_versions versions) as [mn mx] eqn:Ef.
+      destruct ((mn =? 0) && (mx =? 0)); [discriminate|].
+      destruct (IH _ _ _ _ _ _ H) as (Hc & H0 & H1).
+      unfold nver in *. cbn [filter is_versions length]. split; [lia|]. split; [intros; lia|].
+      intros Hn. assert (Hz : length (filter is_versions es) = 0%nat) by lia.
+      destruct (H0 Hz) as (_ & _ & Hx). exists versions. split; [reflexivity|]. rewrite Ef. exact Hx.
+    + assert (Hs : scan_versions (s :: es) (c0, m0, x0) = scan_versions es (c0, m0, x0)).
+      { destruct s as [e|]; [destruct e; try reflexivity; discriminate|reflexivity]. }
+      rewrite Hs in H. destruct (IH _ _ _ _ _ _ H) as (Hc & H0 & H1).
+      assert (Hn : nver (s :: es) = nver es) by (unfold nver; cbn [filter]; rewrite Ev; reflexivity).
+      assert (Hf : spec_versions (s :: es) = spec_versions es).
+      { unfold spec_versions. cbn [find]. fold (is_versions s). rewrite Ev. reflexivity. }
+      rewrite Hn, Hf. auto.
+Qed.
+
+Lemma legacy_version sp mn mx v : set_tls_vers sp = Ok (mn, mx) -> hello_vers mn mx = Ok v ->
+  v = N.min (spec_max sp) 771.
+Proof.
+  unfold set_tls_vers, hello_vers, spec_max. intros Hs Hv.
+  destruct (mx <? mn); [discriminate|]. inversion Hv; subst v; clear Hv.
+  assert (Hmx : mx = if (sp_min sp =? 0) && (sp_max sp =? 0)
+                      then match spec_versions (sp_exts sp) with
+                           | Some vs => fold_right N.max 0 (filter (fun v => negb (Grease.is_grease v)) vs)
+                           | None => 771 end
+                      else sp_max sp).
+  { destruct ((sp_min sp =? 0) && (sp_max sp =? 0)).
+    - destruct (scan_versions (sp_exts sp) (0%nat, 0, 0)) as [[[cnt m1] x1]| |] eqn:Esc; cbn [bind] in Hs; try discriminate.
+      destruct (scan_versions_spec _ _ _ _ _ _ _ Esc) as (Hc & H0 & H1). cbn in Hc.
+      destruct cnt as [|[|cnt]]; cbn [bind] in Hs; try discriminate.
+      + destruct (H0 (eq_sym Hc)) as (Hn & _ & _). rewrite Hn.
+        cbv [VersionTLS10 VersionTLS12 VersionTLS13] in Hs. cbn in Hs. inversion Hs. reflexivity.
+      + destruct (H1 (eq_sym Hc)) as (vs & Hsv & Hx). rewrite Hsv.
+        destruct ((m1 <? VersionTLS10) || (VersionTLS13 <? m1)); [discriminate|].
+        destruct ((x1 <? VersionTLS10) || (VersionTLS13 <? x1)); [discriminate|].
+        inversion Hs; subst. unfold find_versions. rewrite find_versions_max. lia.
+    - cbn [bind] in Hs.
+      destruct ((sp_min sp <? VersionTLS10) || (VersionTLS13 <? sp_min sp)); [discriminate|].
+      destruct ((sp_max sp <? VersionTLS10) || (VersionTLS13 <? sp_max sp)); [discriminate|].
+      inversion Hs; reflexivity. }
+  rewrite <- Hmx. unfold VersionTLS12. destruct (771 <? mx) eqn:E; lia.
+Qed.
+
+(* ---- ApplyPreset as a whole against the oracle ---- *)
+
+
+Lemma apply_preset_matches sp c fr h es name pl pw :
+  apply_preset sp c fr = Ok (h, es) ->
+  forallb wf_ext es = true ->
+  sp_comp sp = [0] ->
+  ast_matches_specb (ast_of h (map (set_pad pl pw) es)) {| p_name := name; p_spec := sp; p_shuffles := false |} c = true.
+Proof.
+  unfold apply_preset. intros H Hwf Hcomp.
+  destruct (set_tls_vers sp) as [[mn mx]| |] eqn:Ev; cbn [bind fst snd] in H; try discriminate.
+  destruct (hello_vers mn mx) as [v| |] eqn:Eh; cbn [bind] in H; try discriminate.
+  destruct (blen (f_random fr) =? 32) eqn:Er; cbn [negb] in H; [|discriminate].
+  destruct (Grease.grease_seed (f_grease fr)) as [sd| |] eqn:Eg; cbn [bind] in H; try discriminate.
+  destruct (Grease.map_res (Grease.regrease sd Grease.ssl_grease_cipher) (sp_suites sp)) as [su| |] eqn:Es; cbn [bind] in H; try discriminate.
+  destruct (blen (f_sid fr) =? 32) eqn:Ei; cbn [negb] in H; [|discriminate].
+  destruct (preset_exts sd c 0 (f_keys fr) (f_ech fr) (sp_exts sp)) as [es0| |] eqn:Ee; cbn [bind] in H; try discriminate.
+  destruct (sync_session_exts es0) as [u| |]; cbn [bind] in H; try discriminate.
+  inversion H; subst h es; clear H.
+  unfold ast_matches_specb, ast_of.
+  cbn [a_vers a_random a_sid a_suites a_comp a_exts p_spec p_shuffles
+       Marshal.h_vers Marshal.h_random Marshal.h_sid Marshal.h_suites Marshal.h_comp].
+  rewrite (legacy_version _ _ _ _ Ev Eh), N.eqb_refl, Er, Ei, (regrease_match _ _ _ _ Es), Hcomp, bytes_eqb_refl.
+  cbn [andb]. eapply preset_exts_match; eassumption.
+Qed.
+
+(* The premise "sp_comp sp = [0]" cannot be dropped: ApplyPreset never reads p.CompressionMethods. *)
+Lemma compression_not_copied sp c fr h es : apply_preset sp c fr = Ok (h, es) -> Marshal.h_comp h = [0].
+Proof.
+  unfold apply_preset. intros H.
+  repeat (match type of H with
+          | context [bind ?x _] => destruct x as [?| |]; cbn [bind] in H; try discriminate
+          | context [if ?b then _ else _] => destruct b; try discriminate
+          end).
+  inversion H; subst. reflexivity.
 Qed.
